@@ -168,6 +168,23 @@ def worker(ctx):
                                 fh.write(text)
                     res.count("stale_outdir_variants")
                     compare("output-directory-holds-older-output:" + stale_kind, lang, opt, cli_variant("stale", lang, opt, od, main, top, "0", False))
+                if opt and lang in ("c", "go") and vi % 2 == case_id % 2:
+                    # options that take a LIST of names: -O -F with every message name (and an unknown one), across hash seeds
+                    from vlib.model import messages_of as _mo
+                    names = [mm.name for mm in _mo(root)] + ["NoSuchMessage"]
+                    rng.shuffle(names)
+                    digs = []
+                    for hs in ["0", "1", "random"] + ([] if ctx.quick else ["2", "random", "random"]):
+                        od = os.path.join(top, f"cli-{lang}-F-hs{hs}-{len(digs)}")
+                        os.makedirs(od, exist_ok=True)
+                        rc, out, err = sut_compiler.cli([lang, main, od, "-O", "-F", ",".join(names)], cwd=top, hashseed=hs)
+                        res.count("cli_compilations")
+                        digs.append(digest_dir(od) if rc == 0 else None)
+                    res.count("filter_list_variants")
+                    res.count("variants_compared")
+                    if any(dg != digs[0] for dg in digs):
+                        res.violation("nondeterministic-output:filter-list-and-hashseed", f"`{lang} -O -F {','.join(names)}` produces different bytes (or fails) under different PYTHONHASHSEED",
+                                      {**wit, "variant": "filter-list", "lang": lang, "names": names})
                 if vi == 0:
                     # default output directory (next to the schema) from another cwd
                     rc, out, err = sut_compiler.cli([lang, os.path.relpath(main, "/")], cwd="/", hashseed="5")
@@ -271,6 +288,6 @@ if __name__ == "__main__":
               "and compilations that fail inside a message/enum/string/import or at an illegal character); sha256 of every generated file compared; the "
               "cache-coherence monitor recomputes every memoised AST method on every call; non-trivial/distinct as in C01"),
         assumptions=["the generated files are the only observable output that matters (stderr lint text is not compared)"],
-        required_counters=["variants_compared", "cli_compilations", "decoy_cwd_variants", "stale_outdir_variants", "after_residue_variants", "residue_compilations_succeeded",
+        required_counters=["variants_compared", "cli_compilations", "decoy_cwd_variants", "stale_outdir_variants", "filter_list_variants", "after_residue_variants", "residue_compilations_succeeded",
                            "residue_compilations_failed_as_intended"],
     )
